@@ -330,6 +330,8 @@ def err_kind(e):
         return "err:value"
     if isinstance(e, IndexError):
         return "err:index"
+    if isinstance(e, (OverflowError, MemoryError)):
+        return "err:overflow"
     return "err:other:" + type(e).__name__
 
 
